@@ -195,7 +195,7 @@ def gen_policy(rng, wf, kind='complete', opts=None):
         oc = {'custom': [c + c for c in p['custom']], 'p_custom': 1.0, 'p_fail': 0.0,
               'exec_retries': p['exec_retries'], 'sub_retries': p['sub_retries'],
               'p_retry_fail': 0.6}
-        if kind in ('complete', 'cmd'):
+        if kind in ('complete', 'cmd', 'cmdtrigc', 'set'):      # ('cmdtrigc': C28, 'set': C29/C08S, additive)
             if p['opt_fail']:
                 oc['p_fail'] = 0.4
             # optional custom outputs may be skipped; required ones are always produced
@@ -228,15 +228,34 @@ def gen_policy(rng, wf, kind='complete', opts=None):
         pol['poll_late'] = rng.random() < opts.get('p_poll_late', 0.0)
     if opts.get('noise') is not None and kind != 'complete':
         pol['p_noise'] = opts['noise']
+    if opts.get('late') is not None and kind != 'complete':
+        # C02 (additive, no random draw): late duplicates of the last message of finished jobs
+        pol['p_late'] = opts['late']
     if kind.startswith('cmd'):
         # C06 (additive, default = the values above): another command mix / rate / number of restarts;
         # applied after all draws, so the random sequence of a case is unchanged
-        for key in ('cmds', 'p_cmd'):
+        for key in ('cmds', 'p_cmd', 'p_hold_queued'):
             if opts.get(key) is not None:
                 pol[key] = opts[key]
         if opts.get('restarts') is not None:
             choices = list(opts['restarts'])
             pol['restarts'] = choices[pol['restarts'] % len(choices)]
+    if kind in ('cmdtrig', 'cmdtrigc'):
+        # C28 (additive; applied after all draws): group triggers mixed with holds / pause; no restarts;
+        # the task_states / task_outputs tables are part of the observation ('cmdtrigc': complete outcomes)
+        pol['cmds'] = ['trigger', 'trigger', 'trigger', 'trigger', 'hold', 'release', 'set_hold_point',
+                       'release_hold_point', 'pause', 'resume', 'trigger', 'trigger']
+        pol['p_cmd'] = 0.1
+        pol['restarts'] = 0
+        pol['obs_db'] = True
+    if kind.startswith('set'):
+        # C29 / C08S (additive; new kinds, drawn after everything else): `cylc set` of outputs / prerequisites with
+        # --flow / --wait on pooled and future instances, mixed with holds, stop + restart
+        # ('set': complete outcomes, 'setany': failures / noise as in 'any')
+        pol['cmds'] = ['set_out', 'set_out', 'set_out', 'set_pre', 'set_pre', 'set_out', 'set_pre', 'hold', 'release',
+                       'set_hold_point', 'release_hold_point', 'stop_clean', 'stop_now', 'pause', 'resume']
+        pol['p_cmd'] = rng.choice([0.1, 0.18, 0.25])
+        pol['restarts'] = rng.choice([0, 0, 1, 2])
     return pol
 
 
